@@ -39,6 +39,30 @@ if __name__ == "__main__":
         d["findings"].append(ent)
         save(d)
         print(ent["record"])
+    elif cmd == "addall":
+        # addall <fixed|known> <PROP> <rule> <key-substring or '-'> <commit or '-'> <what...>; findings come from a run on --repo $KF_REPO
+        import subprocess
+        status, prop, rule, sub, commit = sys.argv[2:7]
+        what = " ".join(sys.argv[7:])
+        repo = os.environ.get("KF_REPO", "/tmp/wt_orig")
+        out = subprocess.run([os.path.join(HERE, "check"), prop, "--repo", repo, "--json", "--no-evidence", "--known", "/dev/null"],
+                             capture_output=True, text=True).stdout
+        js = json.loads([l for l in out.splitlines() if l.startswith("JSON ")][0][5:])
+        n = 0
+        for r in js:
+            if r["rule"] == rule and (sub == "-" or sub in r["key"]):
+                ent = {"property": prop, "rule": rule, "key": r["key"], "status": status, "what": what}
+                if status == "fixed":
+                    ent["commit"] = commit
+                    ent["record"] = f"fixed: property={prop} {commit} {what}"
+                else:
+                    ent["record"] = f"known: property={prop} {what}"
+                d["findings"] = [f for f in d["findings"] if not (f["key"] == ent["key"] and f["property"] == prop)]
+                d["findings"].append(ent)
+                n += 1
+                print(ent["record"], "::", r["key"][:100])
+        save(d)
+        print(n, "entries")
     elif cmd == "list":
         for f in d["findings"]:
             print(f["record"], "::", f["key"])
